@@ -70,7 +70,9 @@ func checkC05(e *Engine, r *Report) {
 
 	r.Rule("R1", "PROVENANCE", "the price of the ante deduction and the price of the refund come from the same source: EthereumTxFeeChecker prices with fee-market params.BaseFee of its ctx; ApplyTransaction builds the message with cfg.BaseFee, cfg = EVMConfig(ctx), whose BaseFee is feeMarketKeeper.GetBaseFee(ctx); EthTxEffectiveGasPrice = BigMin(tip+base, cap) for dynamic-fee txs else GasPrice(); EthTxEffectiveFee = price × tx.Gas(); the refund is st.gas × st.gasPrice with gasPrice = msg.GasPrice()", 7, func() {
 		ctxP := ssa.Value(applyTx.Params[1])
-		as := callsIn(applyTx, false, func(c ssa.CallInstruction) bool { return isCallTo(c, CallSpec{pkgGethTypes, "Transaction", "AsMessage"}) })
+		as := callsIn(applyTx, false, func(c ssa.CallInstruction) bool {
+			return isCallTo(c, CallSpec{pkgGethTypes, "Transaction", "AsMessage"})
+		})
 		if len(as) != 1 {
 			r.Bad("ApplyTransaction › AsMessage", e.Pos(applyTx.Pos()), "not exactly one tx.AsMessage call")
 			return
@@ -116,8 +118,14 @@ func checkC05(e *Engine, r *Report) {
 		txP, baseP := ssa.Value(egp.Params[0]), ssa.Value(egp.Params[1])
 		okShape := true
 		nDyn, nLeg := 0, 0
-		gDyn := eqGuards(egp, true, func(v ssa.Value) bool { c, _ := callOf(v); return c != nil && isCallTo(c, CallSpec{pkgGethTypes, "Transaction", "Type"}) },
-			func(v ssa.Value) bool { k, ok := constInt(v); return ok && k == constUint(e, pkgGethTypes, "DynamicFeeTxType") })
+		gDyn := eqGuards(egp, true, func(v ssa.Value) bool {
+			c, _ := callOf(v)
+			return c != nil && isCallTo(c, CallSpec{pkgGethTypes, "Transaction", "Type"})
+		},
+			func(v ssa.Value) bool {
+				k, ok := constInt(v)
+				return ok && k == constUint(e, pkgGethTypes, "DynamicFeeTxType")
+			})
 		for _, ret := range returnsOf(egp) {
 			c, _ := callOf(ret.Results[0])
 			if c != nil && isCallTo(c, CallSpec{GETH + "/common/math", "", "BigMin"}) {
